@@ -1,8 +1,8 @@
 package main
 
 import (
-	"go/constant"
 	"fmt"
+	"go/constant"
 	"go/token"
 	"go/types"
 	"sort"
@@ -170,6 +170,7 @@ func (w *World) ifs(fn *ssa.Function) []ifInfo {
 func (w *World) gatedBy(fn *ssa.Function, ifs []ifInfo, s Site, c Cond, loopAll ...bool) (bool, int, string) {
 	la := len(loopAll) > 0 && loopAll[0]
 	maySkip := len(loopAll) > 1 && loopAll[1]
+	conditional := len(loopAll) > 2 && loopAll[2]
 	matched := 0
 	var why []string
 	for _, ii := range ifs {
@@ -188,7 +189,7 @@ func (w *World) gatedBy(fn *ssa.Function, ifs []ifInfo, s Site, c Cond, loopAll 
 			why = append(why, pos+": effect precedes the check in the same block")
 			continue
 		}
-		if !la && !ii.b.Dominates(s.Block) {
+		if !la && !conditional && !ii.b.Dominates(s.Block) {
 			why = append(why, pos+": check does not dominate the effect")
 			continue
 		}
@@ -197,9 +198,35 @@ func (w *World) gatedBy(fn *ssa.Function, ifs []ifInfo, s Site, c Cond, loopAll 
 			if h, ok := iterationAlwaysPasses(fn, ii.b); !ok && !maySkip {
 				why = append(why, pos+": an iteration of the loop can avoid the per-element check")
 				continue
+			} else if h == nil && !ii.b.Dominates(s.Block) {
+				// the "per-element" check is in no loop at all (e.g. every path through the body leaves the loop, so there is
+				// no back edge): it is an ordinary check and must dominate the effect like one
+				why = append(why, pos+": the per-element check is not inside a loop (at most one element is ever checked) and does not dominate the effect")
+				continue
 			} else if h != nil && !h.Dominates(s.Block) {
 				why = append(why, pos+": the loop holding the per-element check does not dominate the effect")
 				continue
+			} else if h != nil && !maySkip {
+				// ... and the loop looks at EVERY element: its only ways out are exhaustion (the header), an error return or a
+				// panic - a `break` after the first acceptable element leaves the rest unchecked (seed C13-10)
+				early := ""
+				if loop := naturalLoops(fn)[h]; loop != nil {
+					for b := range loop {
+						for _, sc := range b.Succs {
+							if loop[sc] || b == h || blockPanics(sc) || returnsNonNilError(sc) {
+								continue
+							}
+							if sc != s.Block && !reachFrom(sc, nil)[s.Block] {
+								continue // leaves without ever reaching the effect
+							}
+							early = fmt.Sprintf("block %d -> %d", b.Index, sc.Index)
+						}
+					}
+				}
+				if early != "" {
+					why = append(why, pos+": the loop holding the per-element check can stop before all elements were checked ("+early+")")
+					continue
+				}
 			}
 		}
 		if reachFrom(fail, map[*ssa.BasicBlock]bool{ii.b: true})[s.Block] {
@@ -265,6 +292,7 @@ type GateOpts struct {
 	AnySiteReach bool // the effect must be REACHABLE from the failing edge of the check (best-effort semantics)
 	LoopAll      bool // the check sits in a loop over elements ("for all x: check(x)"): dominance is not required,
 	// only that the effect is unreachable from the failing edge without re-evaluating the check
+	Conditional bool // the check sits under a condition of its own (e.g. "only when a fee is due"): it need not dominate the effect, but the effect must be unreachable from its failing edge
 	LoopMaySkip bool // with LoopAll: some iterations legitimately do not evaluate the check (reviewed `continue` / `i > 0 &&`)
 }
 
@@ -323,7 +351,7 @@ func (r *Report) Gate(key, fnKey string, e Effect, conds []Cond, o GateOpts) {
 	for _, c := range conds {
 		nOK := 0
 		for i, s := range sites {
-			ok, _, detail := w.gatedBy(fn, ifs, s, c, o.LoopAll, o.LoopMaySkip)
+			ok, _, detail := w.gatedBy(fn, ifs, s, c, o.LoopAll, o.LoopMaySkip, o.Conditional)
 			k := fmt.Sprintf("%s|%s|%s", key, fnKey, c.String())
 			if len(sites) > 1 {
 				k += fmt.Sprintf("#%d", i)
@@ -3637,16 +3665,44 @@ func (r *Report) ChanShape(key, fnKey string) {
 	}
 	// appended
 	app := false
+	var appBlock *ssa.BasicBlock
 	for _, c := range Calls(fn, "builtin.append") {
 		if renderCall(c).Has("field:processingResult.rawReport", "recv") {
 			app = true
+			appBlock = c.Block()
 		}
 	}
 	if !app {
 		r.Bad(k, d, w.FnPos(fn), "received rawReport is not appended to the reports")
 		return
 	}
-	// the append is unconditional within the receive loop
+	// the append is unconditional within the receive loop: no way from the receive to the next iteration or to a return
+	// that avoids the append (seed C19-9: `if result.err != nil { continue }` placed before the append)
+	if rb := recvs[0].Block(); appBlock != rb {
+		seen := map[*ssa.BasicBlock]bool{}
+		skips := false
+		var walk func(b *ssa.BasicBlock)
+		walk = func(b *ssa.BasicBlock) {
+			if seen[b] || b == appBlock || skips {
+				return
+			}
+			seen[b] = true
+			if b == rb || len(b.Succs) == 0 {
+				skips = true
+				return
+			}
+			for _, s := range b.Succs {
+				walk(s)
+			}
+		}
+		for _, s := range rb.Succs {
+			walk(s)
+		}
+		if skips {
+			r.Bad(k, d, w.posOr(recvs[0].Pos(), fn), "a received result can be dropped: some path from the receive to the next iteration (or to a return) does not append its rawReport")
+			return
+		}
+	}
 	r.OK(k, d, w.FnPos(fn), "shape matches")
 }
 
